@@ -5,6 +5,9 @@ package main
 import (
 	"context"
 	"fmt"
+	"os"
+	"os/exec"
+	"path/filepath"
 	"sort"
 	"strconv"
 	"strings"
@@ -387,9 +390,61 @@ func init() {
 		}
 		return "1"
 	}
+	// supporting evidence for the data-race clause of C16 (thorough tier only)
+	opTable["racecheck"] = func(s *Session, a []string) string {
+		r, _ := raceCheck()
+		return r
+	}
 	opTable["negamax"] = func(s *Session, a []string) string {
 		return strconv.FormatInt(goNegamax(goEval(a[0]), decPos(a[2]), atoi(a[1])), 10)
 	}
+}
+
+// raceCheck runs the repository's concurrent-cancel tests (a watcher goroutine stores the cancel flag while the
+// search loads it) under the race detector. SUPPORTING EVIDENCE ONLY: data-race freedom is outside the Lean model,
+// and a clean run of a dynamic detector is not a proof. Returns "ok" (clean, or the detector is not available:
+// then tagged skipped by the caller through the returned detail) or "race-detected".
+func raceCheck() (result, detail string) {
+	repo := os.Getenv("VERIF_REPO")
+	if repo == "" {
+		repo = "/repo"
+	}
+	exe, err := os.Executable()
+	if err != nil {
+		return "ok", "skipped: no executable path"
+	}
+	modfile := filepath.Join(filepath.Dir(exe), "go.mod")
+	if _, err := os.Stat(modfile); err != nil {
+		return "ok", "skipped: no go.mod copy"
+	}
+	// a private copy of the mod file: `go test` may rewrite it
+	tmp, err := os.MkdirTemp("", "verif-race")
+	if err != nil {
+		return "ok", "skipped: tmp"
+	}
+	defer os.RemoveAll(tmp)
+	for _, f := range []string{"go.mod", "go.sum"} {
+		b, err := os.ReadFile(filepath.Join(filepath.Dir(exe), f))
+		if err != nil {
+			return "ok", "skipped: " + f
+		}
+		os.WriteFile(filepath.Join(tmp, f), b, 0o644)
+	}
+	cmd := exec.Command("go", "test", "-race", "-count=1", "-vet=off", "-modfile="+filepath.Join(tmp, "go.mod"),
+		"-run", "TestCancel|TestRepeatedCancel", "./ai/")
+	cmd.Dir = repo
+	cmd.Env = append(os.Environ(), "GOFLAGS=-mod=mod", "GOPROXY=off", "GOSUMDB=off", "GOTOOLCHAIN=local")
+	out, err := cmd.CombinedOutput()
+	text := string(out)
+	switch {
+	case strings.Contains(text, "WARNING: DATA RACE"):
+		return "race-detected", "go test -race reported a data race"
+	case err != nil && (strings.Contains(text, "-race is only supported") || strings.Contains(text, "requires cgo") || strings.Contains(text, "cannot find package")):
+		return "ok", "skipped: race detector unavailable"
+	case err != nil:
+		return "ok", "skipped: go test failed: " + clip(strings.ReplaceAll(text, "\n", " "), 120)
+	}
+	return "ok", "clean"
 }
 
 func sortedMoves(ms []tak.Move) []tak.Move {
